@@ -124,6 +124,14 @@ def run(tier, seed, replay=None):
         texts.append(('macro', macro_prog(rng)))
     # binder shapes that are always run: shadowing let initialisers, define after use in a function body
     texts += [('shadowing', cc.render(p)) for p in cc.shadowing_programs()]
+    # one name bound at three levels, used or assigned after the innermost scope has ended
+    for t in ["(do (define x 1) (let ([x 10]) (map (fn [x] (+ x 1)) '(1 2)) (set [x (+ x 5)]) (list x)))",
+              "(do (define x 1) (list (let ([x 10]) ((fn [x] x) 3) (list x (let ([x 20]) x) x)) x))",
+              "(do (define a 1) (list (let ([a 10]) (let ([a 20]) a) (set [a (+ a 1)]) a) a))",
+              "(do (define a 1) (define mk (fn [a] (let ([a (+ a 1)]) a) (fn [] (set [a (+ a 1)]) a))) (define c (mk 5)) (list (c) (c) a))",
+              "(do (define b 2) ((fn [b] (let ([b 7]) b) (set [b (* b 2)]) b) 4))",
+              "(do (define b 2) (list (let ([b 3]) (let ([q 0]) (let ([b 4]) b)) (set [b 9]) b) b))"]:
+        texts.append(('threelevel', t))
     pre_of = {}
     for mdef, progs in USER_MACROS:
         for t in progs:
